@@ -108,6 +108,13 @@ def plan(tier, seed):
             ([{"create_cache": True, "records_per_chunk": 2}], {"records_per_chunk": 3}, "cached open, other rpc"),
         ):
             cases.append({"spec": {"level": level, "images": images}, "devs": [], "pre": pre, "kw": kw, "label": f"{level} four images, {what}"})
+    # long per-line columns through the cache: piecewise-constant values, and 32-bit maxima / high bits on a few of 4200 lines
+    for level in ("1.5", "1.1"):
+        flds = [f for f in fields_of(level) if f["kind"] == "B" and "enum" not in f and not f.get("flag") and f["name"] not in synth.LINE_CONSTANTS]
+        extreme = [["img0", "line", f["key"], {"hex": "ff" * f["w"]}, ln] for f in flds for ln in (0, 4100)] + [["img0", "line", f["key"], {"hex": "80" + "00" * (f["w"] - 1)}, 4199] for f in flds]
+        for pre, what in (([], "uncached"), ([{"create_cache": True}], "cached open")):
+            cases.append({"spec": {"level": level, "images": [["HH", None, 24, 1]], "line_mode": "steps"}, "devs": [], "pre": pre, "kw": {}, "label": f"{level} 24 lines piecewise constant, {what}"})
+            cases.append({"spec": {"level": level, "images": [["HH", None, 4200, 1]], "line_mode": "steps"}, "devs": extreme, "pre": pre, "kw": {}, "label": f"{level} 4200 lines with extreme values on lines 0, 4100, 4199, {what}"})
     return cases
 
 
@@ -133,7 +140,7 @@ def run(res, tier, seed):
         "both record types; baselines L=1..3; every prefix field x {0,1,mid,max,high bit | every enum code | flag 0,1,2} on one"
         " line (quick) / each line (thorough), per-file constants on all lines; (year,day,ms) over 3 years x days"
         " {1,59,60,61,365,366} x ms {0,1,86399999}; us {0,1,86399999999}; 5 optional header fields x {blank,0,value,full width};"
-        " neighbour pairs full width (thorough); images of 260..2100 lines (more than one metadata request at the default rpc, hundreds of small ones); four-image products (two scans x two polarisations, four polarisations) uncached, while writing the index cache and through it. Every case is a distinct product compared on all /imagery leaves."
+        " neighbour pairs full width (thorough); images of 260..2100 lines (more than one metadata request at the default rpc, hundreds of small ones); four-image products (two scans x two polarisations, four polarisations) uncached, while writing the index cache and through it; 24-line piecewise-constant and 4200-line images with extreme values, uncached and through the cache. Every case is a distinct product compared on all /imagery leaves."
     )
     res.assumptions = ["per-file constants are constant over the lines of a file (the property calls them constants)", "a blank interleaving id may surface as absent or as '' (C03 and C20 word it differently)"]
     unv = set()
